@@ -35,6 +35,8 @@ CLAIMS = {
          "io.Writer law n < len(p) ==> err != nil assumed of the destination"),
  "C14": ("proof: zero-annotation safety sweep (index, slice bounds, nil dereference, type assertion, division, signed overflow, explicit panic unreachable) plus a decreasing variant for every annotated loop, for every function under contract in age, internal/stream and internal/format; scrypt work bounded by the C10 call-site obligation.",
          "library internals assumed panic-free and terminating; < 2^88 chunks per stream; functions not yet under contract (armor, bech32, parse.go, agessh, plugin, cmd) are not covered yet"),
+ "C19": ("proof for EncryptedSSHIdentity.Unwrap: the passphrase callback is not called unless some stanza has the declared key type and tag (loop invariant over all stanzas), it is called at most once, never when a validated key is cached; i.decrypted changes only on the path on which the parsed key compared equal to the declared public key after exactly one prompt, and is never set to a typed nil.",
+         "ssh key parsing and PublicKey.Equal are library code with assumed contracts; that a cached key is the right one rests on Equal"),
 }
 
 NOT_YET = {
@@ -43,7 +45,6 @@ NOT_YET = {
  "C16": "plugin client loop contracts not built yet",
  "C17": "plugin name / exec contracts not built yet",
  "C18": "key-file parser contracts not built yet",
- "C19": "EncryptedSSHIdentity contract not built yet",
  "C20": "frame obligations not built yet",
 }
 
